@@ -1,1 +1,92 @@
 //! verification hooks used by the check of property C01
+//!
+//! Canonical text of static types (dimension types as exponent vectors over base dimensions) and of raw
+//! run-time values (quantities with their unsimplified units), so that the harness can compare the
+//! dimension of every produced quantity with the type the checker inferred.
+
+use crate::Context;
+use crate::typed_ast::{DTypeFactor, Type};
+use crate::value::Value;
+use crate::verif::c03::{describe_quantity, show_quantity};
+
+/// `D[Length:1/1,Time:-2/1]`, `Bool`, `String`, `DateTime`, `List<..>`, `Struct{a=..,b=..}`, `Fn`, `?` (open type)
+pub fn describe_type(t: &Type) -> String {
+    match t {
+        Type::Dimension(d) => {
+            let mut fs: Vec<String> = Vec::new();
+            for (f, e) in d.factors() {
+                match f {
+                    DTypeFactor::BaseDimension(n) => fs.push(format!("{}:{}/{}", n, e.numer(), e.denom())),
+                    DTypeFactor::TVar(_) | DTypeFactor::TPar(_) => return "?".into(),
+                }
+            }
+            fs.sort();
+            format!("D[{}]", fs.join(","))
+        }
+        Type::Boolean => "Bool".into(),
+        Type::String => "String".into(),
+        Type::DateTime => "DateTime".into(),
+        Type::List(inner) => format!("List<{}>", describe_type(inner)),
+        Type::Struct(info) => {
+            let fs: Vec<String> = info
+                .fields
+                .iter()
+                .map(|(n, (_, t))| format!("{}={}", n, describe_type(t)))
+                .collect();
+            format!("Struct{{{}}}", fs.join(";"))
+        }
+        Type::Fn(..) => "Fn".into(),
+        Type::TVar(_) | Type::TPar(_) => "?".into(),
+    }
+}
+
+/// raw value: `q <bits> <unit> <s|n>`, `bool`, `str`, `datetime`, `fn`, `List<v;v;..>`, `Struct{a=v;b=v}`
+pub fn describe_raw_value(v: &Value) -> String {
+    match v {
+        Value::Quantity(q) => format!("({})", show_quantity(&describe_quantity(q))),
+        Value::Boolean(_) => "bool".into(),
+        Value::String(_) => "str".into(),
+        Value::DateTime(_) => "datetime".into(),
+        Value::FunctionReference(_) => "fn".into(),
+        Value::FormatSpecifiers(_) => "fmt".into(),
+        Value::StructInstance(info, values) => {
+            let fs: Vec<String> = info
+                .fields
+                .keys()
+                .zip(values.iter())
+                .map(|(n, v)| format!("{}={}", n, describe_raw_value(v)))
+                .collect();
+            format!("Struct{{{}}}", fs.join(";"))
+        }
+        Value::List(l) => {
+            let vs: Vec<String> = l.iter().map(describe_raw_value).collect();
+            format!("List<{}>", vs.join(";"))
+        }
+    }
+}
+
+impl Context {
+    /// static type of a global identifier (variable), if it is closed
+    pub fn verif_type_of(&self, name: &str) -> Option<String> {
+        self.typechecker
+            .lookup_identifier_type(name)
+            .map(|s| describe_type(&s.to_concrete_type()))
+    }
+
+    /// raw (unsimplified) value bound to a global name
+    pub fn verif_raw_global_value(&self, name: &str) -> Option<String> {
+        self.interpreter
+            .verif_raw_global(name)
+            .map(|v| describe_raw_value(&v))
+    }
+
+    /// the static type (dimension) of every unit, by unit name
+    pub fn verif_unit_types(&self) -> Vec<(String, String)> {
+        let mut v: Vec<(String, String)> = self
+            .unit_representations()
+            .map(|(name, (_, md))| (name.to_string(), describe_type(&md.type_)))
+            .collect();
+        v.sort();
+        v
+    }
+}
